@@ -152,3 +152,165 @@ def run_c17(tier, replay=None):
         trusted=["TLC 1.8.0", "harness sched.rs (BDL printer for schedule blocks, projection of schedules and loads)"],
         assumptions=["hour values are quantised to 1e-4; models with negative loads or schedule values in (0, 1e-4) are recorded but not judged (wellformed = false)",
                      "occupied-hours obligation needs every expanded people schedule to have 365 days"])
+
+
+# ------------------------------------------------------------------------------------ C01
+
+def run_c01(tier, replay=None):
+    quick = tier == "quick"
+
+    def record(wd, tier, cases_file, payload):
+        trace = os.path.join(wd, "trace.ndjson")
+        bins = build_bins()
+        args = ["cli", "--out", trace, "--bins", bins, "--scratch", os.path.join(wd, "scratch")]
+        synth = os.path.join(wd, "synthetic")
+        try:
+            from bdl_projects import write_synthetic_projects
+            write_synthetic_projects(synth, 6 if quick else 120, seed())
+            args += ["--synthetic", synth]
+        except ImportError:
+            pass
+        st = vh(args, timeout=3600)
+        return trace, st
+
+    def run_of(ev, pred):
+        """events of the first run whose Start satisfies pred"""
+        i = 0
+        while i < len(ev):
+            if ev[i]["ev"] == "Start":
+                j = i + 1
+                while j < len(ev) and ev[j]["ev"] != "Start":
+                    j += 1
+                if pred(ev[i], ev[i:j]):
+                    return ev[i:j]
+                i = j
+            else:
+                i += 1
+        return None
+
+    def ctl_other(ev):
+        r = run_of(ev, lambda s, run: s["tool"] == "hulc2model" and s["input"] == "project")
+        if r:
+            r.insert(1, {"ev": "Stdout", "kind": "other", "equal": False, "bytes": 20, "head": "Sistemas  GT:"})
+            return r, "a debug line printed to stdout before the JSON", "OnlyTheModelJsonOnStdout"
+
+    def ctl_equal(ev):
+        r = run_of(ev, lambda s, run: s["tool"] == "hulc2model" and s["input"] == "project")
+        if r:
+            for e in r:
+                if e["ev"] == "Stdout":
+                    e["equal"] = False
+            return r, "stdout JSON differs from the library's model", "StdoutJsonEqualsLibraryModel"
+
+    def ctl_exit(ev):
+        r = run_of(ev, lambda s, run: s["input"] == "noproject")
+        if r:
+            r[-1]["code"] = 0
+            return r, "exit status 0 for a directory without project", "NoProjectExitsNonZero"
+
+    def ctl_thor(ev):
+        r = run_of(ev, lambda s, run: s["tool"] == "thor" and s["input"] == "project")
+        if r:
+            r = [e for e in r if e["ev"] != "OutFile"]
+            return r, "thor did not write the -o file", "ThorWritesTheModelFile"
+
+    def nontrivial(events):
+        return set(json.dumps([e["tool"], e["extra"], e["target"]]) for e in events if e["ev"] == "Start" and e["input"] == "project")
+
+    def samples_of(events):
+        return events[:4] + [e for e in events if e["ev"] == "Start" and e["input"] != "project"][:2]
+
+    def key_of(e, name):
+        head = (e.get("head") or "")[:40].split("\n")[0]
+        return "%s:%s" % (name, head if e["ev"] == "Stdout" else e.get("ev"))
+
+    return generic_trace_check(
+        "C01", tier, replay,
+        mc=[("MC_Cli", "MC_Cli.cfg", "MC_Cli.cfg", 2, None)],
+        record=record, trace_module="Trace_Cli",
+        controls=[ctl_other, ctl_equal, ctl_exit, ctl_thor],
+        nontrivial=nontrivial,
+        rule="real process runs: every shipped project directory (and synthetic projects written by the BDL printer) x {default, --use-extra} for hulc2model and thor -o, plus empty / missing / unparsable directories; non-trivial = runs on a convertible project; distinct by (tool, option, directory)",
+        samples_of=samples_of, key_of=key_of,
+        checker_cmd="tlc MC_Cli.cfg; tlc Trace_Cli.cfg (TRACE=work/C01/trace.ndjson)",
+        trusted=["TLC 1.8.0", "harness clicheck.rs (stdout tokeniser: maximal JSON objects vs other text; equality of models through Model::from_json + as_json)"],
+        assumptions=["'convertible' is decided by calling the library (hulc2model::collect_hulc_data / Model::try_from) on the same input in a worker process"])
+
+
+# ------------------------------------------------------------------------------------ C05
+
+def run_c05(tier, replay=None):
+    quick = tier == "quick"
+
+    def record(wd, tier, cases_file, payload):
+        trace = os.path.join(wd, "trace.ndjson")
+        st = vh(["locks", "--out", trace, "--rounds", "1" if quick else "6", "--threads", "16",
+                 "--max-projects", "6" if quick else "12", "--generated", "4" if quick else "30"], timeout=7200)
+        return trace, st
+
+    def ctl_digest(ev):
+        seen = {}
+        for e in ev:
+            if e["ev"] == "Result" and e["ok"]:
+                k = (e["kind"], e["input"])
+                if k in seen:
+                    e["digest"] = "0" * 32
+                    return [seen[k], e], "second digest of the same input differs", "SameResultWhateverTheHistoryOrSchedule"
+                seen[k] = dict(e)
+
+    def ctl_ids(ev):
+        base = None
+        for e in ev:
+            if e["ev"] == "IdMap" and e["variant"] == "base":
+                base = e
+            elif e["ev"] == "IdMap" and base is not None and e["ids"]:
+                e["ids"][0][1] = "00000000-0000-0000-0000-000000000001"
+                return [base, e], "one id changed after adding an unrelated definition", "UnrelatedDefinitionChangesNoId"
+
+    def ctl_lock(ev):
+        locks = [e for e in ev if e["ev"] in ("Request", "Done", "Acquire", "Release")]
+        if len(locks) > 20:
+            t = locks[0]["thread"]
+            mine = [e for e in locks if e["thread"] == t][:9]
+            # swap Acquire and Release of JULY
+            ia = next(i for i, e in enumerate(mine) if e["ev"] == "Acquire")
+            ir = next(i for i, e in enumerate(mine) if e["ev"] == "Release")
+            mine[ia], mine[ir] = mine[ir], mine[ia]
+            return mine, "JULY released before it is acquired", "LockProtocolOrder"
+
+    def ctl_excl(ev):
+        locks = [e for e in ev if e["ev"] in ("Request", "Done", "Acquire", "Release")]
+        t = locks[0]["thread"]
+        mine = [dict(e) for e in locks if e["thread"] == t][:9]
+        other = [dict(e, thread="ThreadId(999)") for e in mine]
+        ia = next(i for i, e in enumerate(mine) if e["ev"] == "Acquire")
+        # the other thread's whole program up to and including its Acquire is placed inside our critical section
+        oa = next(i for i, e in enumerate(other) if e["ev"] == "Acquire")
+        merged = mine[:ia + 1] + other[:oa + 1] + mine[ia + 1:] + other[oa + 1:]
+        return merged, "two threads inside the JULY section at once", "MutualExclusion"
+
+    def nontrivial(events):
+        return set(json.dumps([e["kind"], e["input"], e["mode"]]) for e in events if e["ev"] == "Result" and e["ok"])
+
+    def samples_of(events):
+        out = [e for e in events if e["ev"] == "Result"][:3]
+        out += [e for e in events if e["ev"] in ("Request", "Acquire")][:3]
+        out += [{k: (v if k != "ids" else v[:3]) for k, v in e.items()} for e in events if e["ev"] == "IdMap"][:2]
+        out += [e for e in events if e["ev"] == "Reference"][:2]
+        return out
+
+    def key_of(e, name):
+        return "%s:%s" % (name, e.get("input") or e.get("pair") or e.get("lock"))
+
+    return generic_trace_check(
+        "C05", tier, replay,
+        mc=[("MC_Locks", "MC_Locks_q.cfg", "MC_Locks.cfg", 8, None)],
+        record=record, trace_module="Trace_Locks",
+        controls=[ctl_digest, ctl_ids, ctl_lock, ctl_excl],
+        nontrivial=nontrivial,
+        rule="Result events: conversions of the shipped projects (first, repeat, fresh process, 16 threads) and indicators of shipped + generated models (fresh process, after every other model, 16 threads); distinct by (kind, input, mode); plus lock events of every computation, id maps with three unrelated definitions added, 6 reference pairs",
+        samples_of=samples_of, key_of=key_of,
+        checker_cmd="tlc MC_Locks.cfg; tlc Trace_Locks.cfg (TRACE=work/C05/trace.ndjson)",
+        trusted=["TLC 1.8.0", "hooks H2 (add-only events; JULY events are emitted while the mutex is held, sequence numbers from one atomic counter)", "md5 digests of as_json text / canonical serde_json::Value"],
+        assumptions=["MONTHLY and META guards are temporaries: their acquisition is internal between Request and Done; mutual exclusion of those is Rust's guarantee",
+                     "reference pairs are compared as JSON values (two shipped references differ from today's text only in the float formatter: 1e30 vs 1e+30)"])
